@@ -41,7 +41,8 @@ keys: KEYS = KeyPool() is process-wide and lazy: KEYS.rsa(i) real RSA-1024 keys 
       A FakeTor instance takes generated keys from index 0 upwards, so every run of a shard sees the
       same keys and pays for key generation once.  rsa_from_blob()/ed_from_blob() decode a
       caller-supplied KeyBlob (what ADD_ONION RSA1024:<blob> carries).
-PortReactor: tiny IReactorTCP/IReactorTime double (listenTCP with tracked, numbered ports).
+PortReactor: tiny IReactorTCP/IReactorTime double (listenTCP with tracked, numbered ports); with
+      reactor.async_stop = True a port's stopListening() completes only when reactor.finish_stops() is called.
 memoize_pem_loading(): memoise cryptography's load_pem_private_key (pure; 8 ms per call otherwise).
 
 Fidelity notes (trusted base): the order of argument checks and the exact 5xx texts are
@@ -56,7 +57,7 @@ import base64
 import hashlib
 import os
 
-from twisted.internet import task, address
+from twisted.internet import task, address, defer
 
 from ..refs import addonion as AO
 from ..refs import kvline
@@ -696,6 +697,11 @@ class FakePort(object):
         if self.open:
             self.open = False
             self.reactor.closed.append(self)
+        if self.reactor.async_stop:
+            # like a real reactor: the port is gone only on a LATER turn
+            d = defer.Deferred()
+            self.reactor.pending_stops.append(d)
+            return d
         return None
 
     def startListening(self):
@@ -713,6 +719,15 @@ class PortReactor(task.Clock):
         self.closed = []
         self.fail_listen = None
         self.triggers = []
+        self.async_stop = False      # True: stopListening() returns a Deferred fired by finish_stops()
+        self.pending_stops = []
+
+    def finish_stops(self):
+        """a later reactor turn: fire the Deferreds of every stopListening() issued so far -> count"""
+        ds, self.pending_stops = self.pending_stops, []
+        for d in ds:
+            d.callback(None)
+        return len(ds)
 
     def listenTCP(self, port, factory, backlog=50, interface=""):
         if self.fail_listen is not None:
